@@ -682,8 +682,10 @@ package http2
 //@ # (stated for literals without indexing; the incremental-indexing path goes through addDynamic, whose
 //@ # frame over pooled header fields is too coarse to carry hf across)
 //@ ensures sens: r1 == nil && len(b0) > 0 && c < 32 ==> hf.sensible == ((c & 240) == 16)
-//@ # (that a literal with incremental indexing is never marked sensitive is not proved: addDynamic's frame, family(HeaderField),
-//@ # forgets the caller's field; a seeded change deriving the mark from bit 4 of such a literal, C03-F, is missed)
+//@ # a field entered into the dynamic table does not carry the never-indexed mark: that mark belongs to the 0001xxxx
+//@ # representation only, and a table entry would hand it on to every later reference (CopyTo copies it)
+//@ assert@call:(*HPACK).addDynamic#1 plain: !hf.sensible
+//@ # (that hf is still unmarked after addDynamic has returned is not proved: its frame, family(HeaderField), forgets the caller's field)
 //@ # the table's backing array is the one it had or a new one: tables never come to share storage
 //@ ensures place: dynplace(hp)
 
